@@ -216,6 +216,7 @@ def units(tier, seed):
     out.append(("inverse-large", {"examples": 3000 if q else 60000}))
     out.append(("jacobi-large", {"examples": 1500 if q else 30000}))
     out.append(("interleaved", {"stride": 1, "max": 5000 if q else 60000}))
+    out.append(("faults", {"jobset": 'nt', "arg": None, "examples": 40 if tier == "quick" else 1500, "triples": 400 if tier == "quick" else 20000}))
     return out
 
 
@@ -231,6 +232,10 @@ def _interleaved_jobs():
 
 
 def run_unit(ctx, name, **kw):
+    if name == "faults":
+        from . import faults
+        faults.run_set(ctx, **kw)
+        return
     if name == "interleaved":
         from .purity import interleaved_pure
         jobs = _interleaved_jobs()
@@ -383,6 +388,10 @@ def run_unit(ctx, name, **kw):
 
 
 def replay(ctx, case):
+    if case.get("kind") == "fault-history":
+        from . import faults
+        faults.replay(ctx, case)
+        return
     if case.get("kind") == "interleaved":
         from .purity import interleaved_pure
         interleaved_pure(ctx, "numbertheory", [NT], _interleaved_jobs(), 1, max_schedules=5000)
